@@ -46,13 +46,17 @@ VALID = [
     "SELECT sum(a) FILTER (WHERE a > 1) FROM base1", "SELECT a, row_number() OVER (ORDER BY a) FROM base1", "SELECT date_part('year', f), date_trunc('month', f) FROM base1",
     "SELECT e / 0, e * 1e0, sqrt(e), ln(e) FROM base1", "SELECT * FROM read_csv('/nonexistent/file.csv')", "SELECT * FROM read_parquet('/nonexistent/file.parquet')", "SELECT * FROM 'nope.csv'",
     "SELECT interval '1 day', TIMESTAMP '2020-01-01 00:00:00', DATE '2020-01-01' + 1", "SELECT a.b.c.d FROM base1", "SELECT \"a\" FROM \"base1\"", "SELECT * FROM list_functions() LIMIT 3",
+    # minimized past failures (F66 constant IN subquery, F38/F64 EXISTS over an outer join / correlated scalar aggregate)
+    "SELECT * FROM base1 WHERE 1 IN (SELECT a FROM base2)", "SELECT * FROM base1 WHERE 1 IN (SELECT a FROM base2) AND EXISTS (SELECT a FROM base2 WHERE g > 10)",
+    "SELECT * FROM base1 WHERE 1 IN (SELECT a FROM base2) AND 10 IN (SELECT g FROM base2)", "SELECT a FROM base1 WHERE EXISTS (SELECT 1 FROM base1 x LEFT JOIN base2 ON x.a = base2.a WHERE x.a = base1.a)",
+    "SELECT * FROM base2 q1 WHERE EXISTS (SELECT 1 FROM base2 q4 WHERE q4.a <> (SELECT sum(q7.g) FROM base2 q7 WHERE q7.a = q4.a))",
     "ATTACH 'x' AS y", "DETACH y", "COPY base1 TO 'x.csv'", "BEGIN", "COMMIT", "PREPARE p AS SELECT 1", "SELECT $1", "SELECT ?",
 ]
 
 # statements whose evaluation fails on some row at run time (worker thread), or at plan time (constant folding)
 RUNTIME_FAIL = [
     "SELECT b::INT FROM base1", "SELECT CAST(b AS DATE) FROM base1", "SELECT sum(x) FROM (VALUES (CAST(9223372036854775807 AS BIGINT)), (CAST(9223372036854775807 AS BIGINT))) v(x)",
-    "SELECT 'abc'::INT", "SELECT '99999999999999999999'::DECIMAL(10,2)", "SELECT regexp_replace(b, '(', 'x') FROM base1", "SELECT b LIKE '\\' FROM base1", "SELECT length(repeat(b, 1000000)) FROM base1",
+    "SELECT 'abc'::INT", "SELECT '99999999999999999999'::DECIMAL(10,2)", "SELECT regexp_replace(b, '(', 'x') FROM base1", "SELECT b LIKE '\\' FROM base1", "SELECT length(repeat(b, 1000000)) FROM base1", "SELECT length(repeat(b, 10000001000000)) FROM base1",
     "SELECT substring(b, -5, 2), substring(b, 0), lpad(b, -1, 'x'), rpad(b, 5, ''), left(b, -9), right(b, -9) FROM base1", "SELECT a::TINYINT * 100 FROM base1 WHERE a = 0",
     "SELECT (d * 1000000000000)::DECIMAL(4,2) FROM base1", "SELECT e::INT, (e * 1e300 * 1e300)::BIGINT FROM base1", "SELECT generate_series(1, 3, 0)", "SELECT * FROM generate_series(1, 10, 0)",
     "SELECT date_part('nope', f) FROM base1", "SELECT f + 100000000 FROM base1", "INSERT INTO base2 SELECT a, b::INT FROM base1", "CREATE TEMP TABLE bad AS SELECT b::INT AS x FROM base1",
